@@ -29,6 +29,9 @@ const prelude = `(set-option :produce-models true)
 @EOLA@
 ; trimA(a, l, h): strings.TrimSpace of a[l:h) as a string value (uninterpreted)
 @TRIMA@
+; UTF-8 decoding at absolute position p of a[.., h): rune value and width (uninterpreted; ASCII axiom below)
+(declare-fun runeAt ((Array Int Int) Int Int) Int)
+(declare-fun runeW ((Array Int Int) Int Int) Int)
 `
 
 // Axioms about the uninterpreted prelude functions, quantified over an array
@@ -40,6 +43,8 @@ type specDecl struct{ proof, cex string }
 type arrAxiom struct{ vars, body, pats string }
 
 var arrAxioms = []arrAxiom{
+	{"(p Int) (h Int)", "(and (>= (runeW ARR p h) 1) (<= (runeW ARR p h) 4) (=> (< p h) (<= (+ p (runeW ARR p h)) h)) (>= (runeAt ARR p h) 0))", ":pattern ((runeW ARR p h))"},
+	{"(p Int) (h Int)", "(=> (and (< p h) (<= 0 (select ARR p)) (< (select ARR p) 128)) (and (= (runeW ARR p h) 1) (= (runeAt ARR p h) (select ARR p))))", ":pattern ((runeAt ARR p h))"},
 	{"(l Int) (h Int)", "(= (sidlen (sid ARR l h)) (- h l))", ":pattern ((sid ARR l h))"},
 	{"(p Int) (h Int)", "(=> (<= p h) (and (<= p (eolA ARR p h)) (<= (eolA ARR p h) h)))", ":pattern ((eolA ARR p h))"},
 	{"(p Int) (h Int)", "(=> (< (eolA ARR p h) h) (= (select ARR (eolA ARR p h)) 10))", ":pattern ((eolA ARR p h))"},
@@ -399,7 +404,7 @@ func (m *Mod) litArr(s string) string {
 	return n
 }
 
-func (m *Mod) litDecls() string {
+func (m *Mod) litDecls(cex bool) string {
 	var b strings.Builder
 	for i, s := range m.litOrd {
 		n := m.lits[s]
@@ -408,7 +413,21 @@ func (m *Mod) litDecls() string {
 			fmt.Fprintf(&b, "(assert (= (select %s %d) %d))\n", n, j, s[j])
 		}
 		// literal identity: distinct literals have distinct ids
-		fmt.Fprintf(&b, "(assert (= (sid %s 0 %d) (- %d)))\n", n, len(s), 1000+i)
+		id := fmt.Sprintf("(- %d)", 1000+i)
+		fmt.Fprintf(&b, "(assert (= (sid %s 0 %d) %s))\n", n, len(s), id)
+		// streq_<lit>(a,l,h): the window a[l:h) holds exactly this literal
+		parts := []string{fmt.Sprintf("(= (- h l) %d)", len(s))}
+		for j := 0; j < len(s); j++ {
+			parts = append(parts, fmt.Sprintf("(= (select a (+ l %d)) %d)", j, s[j]))
+		}
+		bytewise := and(parts...)
+		if cex || len(s) == 0 {
+			fmt.Fprintf(&b, "(define-fun streq_%s ((a (Array Int Int)) (l Int) (h Int)) Bool %s)\n", n, bytewise)
+		} else {
+			// proofs: equality is identity of content ids, linked to the bytes by an axiom on every sid term
+			fmt.Fprintf(&b, "(define-fun streq_%s ((a (Array Int Int)) (l Int) (h Int)) Bool (= (sid a l h) %s))\n", n, id)
+			fmt.Fprintf(&b, "(assert (forall ((a (Array Int Int)) (l Int) (h Int)) (! (= (= (sid a l h) %s) %s) :pattern ((sid a l h)))))\n", id, bytewise)
+		}
 	}
 	return b.String()
 }
